@@ -9,7 +9,10 @@ use jbonsai::duration::DurationEstimator;
 use jbonsai::model::MeanVari;
 
 fn speeds(rng: &mut Rng, f1: usize) -> Vec<f64> {
-    let mut v = vec![1.0, 1.0 + 1e-9, 1.0 - 1e-9, 0.1, 50.0, 0.25, 4.0];
+    let mut v = vec![1.0, 1.0 + 1e-9, 1.0 - 1e-9, 0.1, 50.0, 0.25, 4.0, 2.0, 0.5, 8.0];
+    // close to, but not, 1: the total must still follow round(F1/s)
+    v.push(1.0 + *rng.pick(&[1e-3, -1e-3, 9e-4, -9e-4, 5e-4, -5e-4, 1e-4, -1e-4, 2e-3, -2e-3]));
+    v.push(1.0 + rng.uniform(-3e-3, 3e-3));
     for _ in 0..6 {
         v.push(rng.log_uniform(0.1, 50.0));
     }
